@@ -9,15 +9,19 @@ for things that run in a worker thread).  Nothing here predicts anything: the mo
 import __future__
 import abc
 import asyncio
+import contextvars
 import dataclasses
 import datetime
 import decimal
 import enum
 import gc
+import inspect
 import io
 import json
 import logging
 import random
+import socket
+import ssl
 import threading
 import time as time_mod
 import typing
@@ -30,11 +34,11 @@ import typing_extensions
 
 import taskiq.message as tmsg
 import taskiq.receiver.receiver as rmod
-from taskiq import TaskiqDepends, TaskiqMiddleware
+from taskiq import SimpleRetryMiddleware, TaskiqDepends, TaskiqMiddleware
 from taskiq.abc.broker import AsyncBroker
 from taskiq.abc.result_backend import AsyncResultBackend
 from taskiq.acks import AckableMessage, AcknowledgeType
-from taskiq.exceptions import BrokerError, NoResultError, SendTaskError, UnknownTaskError
+from taskiq.exceptions import BrokerError, NoResultError, ResultGetError, SendTaskError, UnknownTaskError
 from taskiq.formatters.json_formatter import JSONFormatter
 from taskiq.formatters.proxy_formatter import ProxyFormatter
 from taskiq.kicker import AsyncKicker
@@ -63,6 +67,9 @@ HOOKS_ALL = ("pre_send", "post_send", "pre_execute", "on_error", "post_execute",
 
 LOG = []
 _CLI = {}
+# receive side: the message a piece of work belongs to when it does not run in that message's own asyncio task (a context
+# is inherited by the tasks created from it)
+WHO_CV = contextvars.ContextVar("verif_who", default=-1)
 CUR = {}     # per-case state used by the module-level shims
 
 
@@ -234,6 +241,8 @@ class RecFormatter(ProxyFormatter):
         if CUR.get("sending"):
             log(w, "dumps", message.task_id, canon(message.labels), getattr(self.broker, "_rec_b", 0))
             if CUR["plan"].get(w, {}).get("kick") == "dumps_fail":
+                if CUR["plan"][w].get("kick_x"):
+                    raise kick_exc(CUR["plan"][w]["kick_x"])
                 raise ValueError("cannot dump")
         return super().dumps(message)
 
@@ -272,11 +281,21 @@ class RecBackend(AsyncResultBackend):
 class ScriptedBroker(AsyncBroker):
     async def kick(self, message):
         w = who()
+        if not CUR.get("sending"):
+            if w < 0:
+                w = WHO_CV.get()       # (the re-send was wrapped into a task of its own: gather / wait_for)
+            # receive side: a message sent BY THE WORKER while it processes message w (the retry middleware re-sends a
+            # failed task through the real kicker): recorded, nothing else - not an effect of the receive pipeline
+            log(w, "rekick", message.task_id, canon(message.labels))
+            await susp(CUR.get("rekick_susp"))
+            return
         p = CUR["plan"].get(w, {})
         log(w, "kick", message.task_id, canon(message.labels), getattr(self, "_rec_b", 0))
         await susp(p.get("kick_susp"))
         k = p.get("kick")
         if k == "kick_fail":
+            if p.get("kick_x"):
+                raise kick_exc(p["kick_x"])
             raise ConnectionError("cannot send")
         if k == "kick_fail_broker":
             raise BrokerError()
@@ -512,6 +531,45 @@ def hook_fn(name, h, tbl):
     return f
 
 
+# ------------------------------------------------------------------------------------- the middlewares taskiq ships
+# taskiq/middlewares holds two: SimpleRetryMiddleware and PrometheusMiddleware (the latter needs the prometheus_client
+# package, which is not installed here: it cannot be constructed).  spec["real"] names the shipped class.
+REAL_MW = {"retry": SimpleRetryMiddleware}
+
+
+def make_real_mw(idx, spec, tbl):
+    """a REAL taskiq middleware in the stack (pipeline_lib.gen_real): an instance of a subclass of the shipped class,
+    constructed with spec["opts"], whose overriding hook (on_error) logs the call, runs the shipped code
+    (`Base.on_error(self, ...)` - whatever it does: look at the labels, re-send through the real kicker into the scripted
+    broker's kick, replace the result's error) and logs the end together with what the hook left behind: the class of
+    result.error and the message's labels (the shipped retry middleware hands message.labels to its kicker, whose
+    with_labels() writes `_retries` into that very dict).  Nothing here predicts what the hook decides.
+    The subclass may override further hooks (recording ones) like an application's subclass would."""
+    base = REAL_MW[spec["real"]]
+    h = spec["on_error"]
+
+    async def on_error(self, message, result, exception):
+        w = who()
+        log(w, "hook", "on_error", self._rec_idx, message.task_id, canon(message.labels), result.is_err,
+            val(result.return_value), excid(result.error), canon(result.labels), excid(exception))
+        try:
+            await susp(h.get("susp"))
+            x = base.on_error(self, message, result, exception)
+            if inspect.isawaitable(x):
+                await x
+        finally:
+            log(w, "hook.exit", "on_error", self._rec_idx, "real", excid(result.error), canon(message.labels))
+    ns = {"on_error": on_error}
+    for name in HOOKS_ALL:
+        hh = spec.get(name)
+        if name != "on_error" and hh is not None and not hh.get("inst"):
+            ns[name] = hook_fn(name, hh, tbl)
+    cls = type("Rec%s%d" % (base.__name__, idx), (base,), ns)
+    inst = cls(**(spec.get("opts") or {}))
+    inst._rec_idx = idx
+    return inst
+
+
 def shadowed_fn(name):
     """a definition of `name` that sits BEHIND the effective override in the class's MRO (a base class whose hook the
     subclass re-defines): Python never resolves to it, so it must never run - logged like a non-overridden hook"""
@@ -645,6 +703,10 @@ def make_mws(specs, tbl, base=0):
     previous middleware's class (honoured only if the two specs describe the same hooks)."""
     out, prev = [], None
     for idx, spec in enumerate(specs):
+        if spec.get("real"):
+            out.append(make_real_mw(base + idx, spec, tbl))
+            prev = None
+            continue
         shape = spec.get("shape") or {}
         eq = spec.get("eq") or {}
         shared = CUR.setdefault("mw_classes", {}) if eq.get("kind") == "dataclass" else None
@@ -832,6 +894,91 @@ def exc_instance(eid, x):
         e.__suppress_context__ = bool(x["suppress"])
     if skey is not None:
         CUR["exc_shared"][skey] = e
+    return e
+
+
+# ------------------------------------------------------------------------------------- what a failing kick / dumps raises
+class BrokerUnavailable(ConnectionError):
+    """a client library's own error class: its own __init__ signature, structured attributes, args = (text, (host, port))"""
+
+    def __init__(self, host, port):
+        super().__init__("broker %s:%d is unavailable" % (host, port), (host, port))
+        self.host, self.port = host, port
+
+
+class CodedError(Exception):
+    """an error that carries a numeric code only"""
+
+    def __init__(self, code):
+        super().__init__(code)
+        self.code = code
+
+
+def _chained():
+    try:
+        try:
+            raise ConnectionResetError(104, "Connection reset by peer")
+        except OSError as e:
+            raise RuntimeError("publish failed") from e
+    except RuntimeError as z:
+        return z
+
+
+# the exception shapes real broker clients raise from a failed publish (socket / asyncio / ssl / json / client libraries)
+KICK_SHAPES = {
+    "ConnectionRefusedError(errno,text)": lambda: ConnectionRefusedError(111, "Connection refused"),
+    "BrokenPipeError(errno,text)": lambda: BrokenPipeError(32, "Broken pipe"),
+    "ConnectionResetError(errno,text)": lambda: ConnectionResetError(104, "Connection reset by peer"),
+    "OSError(errno,text,filename)": lambda: OSError(2, "No such file or directory", "/run/broker.sock"),
+    "OSError(errno)": lambda: OSError(111),
+    "socket.gaierror(errno,text)": lambda: socket.gaierror(-2, "Name or service not known"),
+    "TimeoutError(errno,text)": lambda: TimeoutError(110, "Connection timed out"),
+    "socket.timeout(text)": lambda: socket.timeout("timed out"),
+    "ssl.SSLError(errno,text)": lambda: ssl.SSLError(1, "[SSL: WRONG_VERSION_NUMBER] wrong version number"),
+    "asyncio.TimeoutError()": lambda: asyncio.TimeoutError(),
+    "RuntimeError()": lambda: RuntimeError(),
+    "asyncio.IncompleteReadError(bytes,int)": lambda: asyncio.IncompleteReadError(b"\x01\x02", 10),
+    "asyncio.QueueFull()": lambda: asyncio.QueueFull(),
+    "KeyError(int)": lambda: KeyError(5),
+    "KeyError(str)": lambda: KeyError("queue"),
+    "IndexError(text)": lambda: IndexError("pop from empty list"),
+    "ValueError(str,str)": lambda: ValueError("a", "b"),
+    "ValueError(bytes)": lambda: ValueError(b"\xff\x00"),
+    "RuntimeError(tuple)": lambda: RuntimeError(("amqp.example", 5672)),
+    "RuntimeError(dict)": lambda: RuntimeError({"code": 503, "reason": "unavailable"}),
+    "RuntimeError(float)": lambda: RuntimeError(0.5),
+    "Exception(None)": lambda: Exception(None),
+    "Exception(str,None)": lambda: Exception("closed", None),
+    "ConnectionError(exception)": lambda: ConnectionError(OSError(111, "Connection refused")),
+    "ConnectionError(non-ascii text)": lambda: ConnectionError("\u0441\u043e\u0435\u0434\u0438\u043d\u0435\u043d\u0438\u0435 "
+                                                              "\u0440\u0430\u0437\u043e\u0440\u0432\u0430\u043d\u043e \u2603"),
+    "ConnectionError(lone surrogate)": lambda: ConnectionError("peer said \udcff\udcfe"),
+    "UnicodeEncodeError(str,str,int,int,str)": lambda: UnicodeEncodeError("utf-8", "\udcff", 0, 1, "surrogates not allowed"),
+    "UnicodeDecodeError(str,bytes,int,int,str)": lambda: UnicodeDecodeError("utf-8", b"\xff", 0, 1, "invalid start byte"),
+    "TypeError(json text)": lambda: TypeError("Object of type set is not JSON serializable"),
+    "RecursionError(text)": lambda: RecursionError("maximum recursion depth exceeded while encoding a JSON object"),
+    "MemoryError()": lambda: MemoryError(),
+    "StopAsyncIteration()": lambda: StopAsyncIteration(),
+    "ExceptionGroup(text,[OSError,KeyError])": lambda: ExceptionGroup("several publishers failed",
+                                                                      [ConnectionRefusedError(111, "Connection refused"),
+                                                                       KeyError(5)]),
+    "taskiq ResultGetError()": lambda: ResultGetError(),
+    "client class with own __init__(host,port)": lambda: BrokerUnavailable("amqp.example", 5672),
+    "client class carrying a code": lambda: CodedError(503),
+    "RuntimeError raised from an OSError (has __cause__)": _chained,
+}
+
+
+def kick_exc(x):
+    """the exception a failing broker.kick() / formatter.dumps() raises for this send (S["kick_x"], pipeline_lib.gen_kickx):
+    shape = a key of KICK_SHAPES, or exc = [table class, description] - an object built by exc_instance (derived class with
+    __eq__ / __hash__ / __bool__ / __len__ / raising __str__ / __repr__, odd args, __cause__ / __context__ chain).  Always an
+    Exception (never a bare BaseException: kiq does not catch those)."""
+    if x.get("shape"):
+        e = KICK_SHAPES[x["shape"]]()
+    else:
+        e = exc_instance(x["exc"][0], x["exc"][1])
+    assert isinstance(e, Exception), "scenario: a kick failure must be an Exception"
     return e
 
 
@@ -1526,7 +1673,8 @@ def run_recv(case):
         mws = make_mws(case["mws"], tbl)
         give_life_hooks(mws, life.get("mw_hooks"))
         CUR.update(broker=broker, mws=mws, plan={i: M for i, M in enumerate(msgs)}, exec={}, sending=False,
-                   names=[task_name(msgs, i) for i in range(len(msgs))], loop_thread=threading.get_ident())
+                   names=[task_name(msgs, i) for i in range(len(msgs))], loop_thread=threading.get_ident(),
+                   rekick_susp=case.get("rekick_susp"))
         if case.get("wall"):
             # the wall clock of taskiq.receiver.receiver (and, scope = global, of every module that reads time.time() at
             # call time) is scripted and may step backwards / forwards while executions are under way
@@ -1636,6 +1784,7 @@ def run_recv(case):
         await life_ops(broker, life.get("pre"))
 
         async def one(i, M):
+            WHO_CV.set(i)
             await susp(M.get("arrive"))
             if M.get("wire"):
                 data = await wire_payload(broker, i, M, tbl)
@@ -1726,7 +1875,15 @@ def run_send(case):
 
         async def step(i, k):
             try:
-                t = await k.kiq()
+                if sends[i].get("handling"):
+                    # the send is made from inside an `except` block of the caller (a fallback / compensation send): another
+                    # exception is being handled while kiq runs
+                    try:
+                        raise kick_exc(sends[i]["handling"])
+                    except Exception:
+                        t = await k.kiq()
+                else:
+                    t = await k.kiq()
                 log(i, "sent", t.task_id)
             except SendTaskError as e:
                 log(i, "crash", "SendTaskError", type(e.__cause__).__name__)
